@@ -1,3 +1,5 @@
+import json
+
 from circuits import Component, handler
 from circuits.core import Value
 from circuits.net.events import write
@@ -24,13 +26,21 @@ class Protocol(Component):
             self.__buffer += data
 
         packets = self.__buffer.split(DELIMITER)
-        self.__buffer = b''
+        # the last piece has not been terminated by a delimiter (yet):
+        # it stays in the buffer until more data arrives
+        self.__buffer = packets.pop()
 
         for packet in packets:
             try:
                 self.__process_packet(packet)
             except ValueError:
-                self.__buffer = packet
+                pass  # undecodable packet
+
+        # a complete packet may be handed over without (or ahead of) its delimiter
+        tail = self.__buffer
+        if tail.rstrip().endswith(b'}') and self.__is_complete(tail):
+            self.__buffer = b''
+            self.__process_packet(tail)
 
     @handler(channel='node_result', priority=100)
     def result_handler(self, event, *args, **kwargs):
@@ -70,6 +80,14 @@ class Protocol(Component):
             self.fire(write(self.__sock, packet))
         else:
             self.fire(write(packet))
+
+    @staticmethod
+    def __is_complete(packet):
+        try:
+            json.loads(packet.decode('utf-8'))
+        except ValueError:
+            return False
+        return True
 
     def __process_packet(self, packet):
         packet = packet.decode('utf-8')
